@@ -39,11 +39,11 @@ Definition vf2_contract (enum : list N -> list N -> list mapping) (H P : graph) 
   (forall m, is_mono_on H P hn pn m -> exists m', In m' (enum hn pn) /\ Permutation m m') /\
   NoDupA (@Permutation (N * N)) (enum hn pn).
 
-(** the calls the search code makes: whole host x whole pattern, and host component x
-    pattern component *)
+(** the calls the search code can make: whole host x whole pattern, and pattern component x
+    host component that is large enough *)
 Definition oracle_ok (enum : list N -> list N -> list mapping) (H P : graph) : Prop :=
   vf2_contract enum H P (node_ids H) (node_ids P) /\
-  forall hc pc, In hc (comps H) -> In pc (comps P) -> vf2_contract enum H P hc pc.
+  forall hc pc, In hc (comps H) -> In pc (comps P) -> length pc <= length hc -> vf2_contract enum H P hc pc.
 
 (** result limits as the property text states them: [max_results] keeps a prefix,
     a (kept) list longer than [threshold] is emptied.  [maxr = 0] encodes None. *)
